@@ -20,6 +20,7 @@ type FuncReport struct {
 	Errors      []string
 	SMTBytes    int
 	hsort       map[string]string
+	modElem     map[string]bool
 }
 
 func contractParamList(k *FuncContract, fn *ssa.Function, sigs ...*types.Signature) (names []string, typs []types.Type) {
@@ -85,18 +86,25 @@ func contractParamList(k *FuncContract, fn *ssa.Function, sigs ...*types.Signatu
 func VerifyFunc(P *Program, DB *ContractDB, fn *ssa.Function, k *FuncContract, prop string) *FuncReport {
 	// pass 1 only collects the heap variables the function and its contracts
 	// mention, so that unchanged() and state merges range over all of them.
-	first := verifyFuncPass(P, DB, fn, k, prop, nil)
-	return verifyFuncPass(P, DB, fn, k, prop, first.hsort)
+	first := verifyFuncPass(P, DB, fn, k, prop, nil, nil)
+	return verifyFuncPass(P, DB, fn, k, prop, first.hsort, first.modElem)
 }
 
-func verifyFuncPass(P *Program, DB *ContractDB, fn *ssa.Function, k *FuncContract, prop string, seed map[string]string) *FuncReport {
+func verifyFuncPass(P *Program, DB *ContractDB, fn *ssa.Function, k *FuncContract, prop string, seed map[string]string, seedMod map[string]bool) *FuncReport {
 	vc := NewVC(P, DB, fn, k, prop)
 	for n, s := range seed {
 		vc.hsort[n] = s
 	}
+	if vc.modElem == nil {
+		vc.modElem = map[string]bool{}
+	}
+	for n := range seedMod {
+		// classification of element arrays / cells learnt in pass 1 (module-private or not)
+		vc.modElem[n] = true
+	}
 	vc.safety = k.Flags["safety"]
 	vc.useSeq = k.Flags["seq"]
-	rep := &FuncReport{Func: vc.qname, hsort: vc.hsort}
+	rep := &FuncReport{Func: vc.qname, hsort: vc.hsort, modElem: vc.modElem}
 	defer func() {
 		if r := recover(); r != nil {
 			rep.Errors = append(rep.Errors, fmt.Sprintf("engine panic in %s: %v", vc.qname, r))
@@ -244,18 +252,35 @@ func verifyFuncPass(P *Program, DB *ContractDB, fn *ssa.Function, k *FuncContrac
 // recover() != nil and returns the state at the exceptional function exit.
 func (fr *Frame) handlePanics() *exitInfo {
 	vc := fr.vc
-	if len(fr.panics) == 0 {
+	if len(fr.panics) == 0 && len(fr.deferPanics) == 0 {
 		return nil
 	}
-	var conds []string
-	for _, p := range fr.panics {
-		conds = append(conds, p.cond)
+	var exits []mergeIn
+	if len(fr.panics) > 0 {
+		var conds []string
+		for _, p := range fr.panics {
+			conds = append(conds, p.cond)
+		}
+		reach := vc.def("panic.reach", "Bool", sOr(conds...))
+		st := vc.merge(fr.panics)
+		fr.panics = nil
+		reach = fr.runDefers(st, reach, true)
+		exits = append(exits, mergeIn{reach, st})
 	}
-	reach := vc.def("panic.reach", "Bool", sOr(conds...))
-	st := vc.merge(fr.panics)
+	// panics raised by deferred calls (on the normal or on the panicking path)
+	// reach the exceptional exit directly (simplification: defers registered
+	// before the one that panicked are not run for them)
+	exits = append(exits, fr.deferPanics...)
+	fr.deferPanics = nil
 	fr.panics = nil
-	reach = fr.runDefers(st, reach, true)
-	return &exitInfo{reach: reach, st: st}
+	if len(exits) == 1 {
+		return &exitInfo{reach: exits[0].cond, st: exits[0].st}
+	}
+	var conds []string
+	for _, e := range exits {
+		conds = append(conds, e.cond)
+	}
+	return &exitInfo{reach: vc.def("panic.exit", "Bool", sOr(conds...)), st: vc.merge(exits)}
 }
 
 // emitAxioms: user axioms (closed formulas over spec functions).
